@@ -1097,3 +1097,53 @@ theorem wav_roundtrip (turbo : Bool) (base : Nat) (code name : Bytes) (hb : base
 
 
 end Pdpy11.Props.C13
+
+/-! ## the name in the tape header -/
+
+namespace Pdpy11.Props.C13.Names
+open Pdpy11.Model.Container
+
+/-- an explicit tape name is written exactly as given, whatever it ends in -/
+theorem explicit_name_kept (n path : List Char) : tapeName (some n) path = n := rfl
+
+/-- an inferred name is the file name of the output path … -/
+theorem inferred_keeps_other (path : List Char) (h : endsWithCI (baseName path) dotWav = false) :
+    tapeName none path = baseName path := by
+  simp [tapeName, h]
+
+/-- … without a final `.wav` (and nothing else is removed) -/
+theorem inferred_strips_wav (path : List Char) (h : endsWithCI (baseName path) dotWav = true) :
+    tapeName none path ++ (baseName path).drop ((baseName path).length - 4) = baseName path := by
+  simp [tapeName, h]
+
+theorem mem_takeWhile_holds {α : Type} (p : α → Bool) (l : List α) (x : α) (h : x ∈ l.takeWhile p) : p x = true := by
+  induction l with
+  | nil => simp at h
+  | cons a r ih =>
+    simp only [List.takeWhile] at h
+    cases hp : p a with
+    | false => rw [hp] at h; simp at h
+    | true =>
+      rw [hp] at h
+      rcases List.mem_cons.mp h with e | e
+      · rw [e]; exact hp
+      · exact ih e
+
+theorem baseName_no_slash (path : List Char) : '/' ∉ baseName path := by
+  unfold baseName
+  intro h
+  have h2 : '/' ∈ path.reverse.takeWhile (· ≠ '/') := by simpa using h
+  have := mem_takeWhile_holds _ _ _ h2
+  simp at this
+
+/-- the file name is a suffix of the path -/
+theorem baseName_suffix (path : List Char) : ∃ pre, pre ++ baseName path = path := by
+  unfold baseName
+  refine ⟨(path.reverse.dropWhile (· ≠ '/')).reverse, ?_⟩
+  rw [← List.reverse_append, List.takeWhile_append_dropWhile, List.reverse_reverse]
+
+example : tapeName none "dir/GAME.WAV".toList = "GAME".toList := by decide
+example : tapeName (some "GAME.WAV".toList) "dir/t.wav".toList = "GAME.WAV".toList := by decide
+example : tapeName none (defaultWavPath "src/Prog.MAC".toList) = "Prog".toList := by decide
+
+end Pdpy11.Props.C13.Names
